@@ -109,6 +109,23 @@ def h_ctor(vc):
                            ("z_unit_vector()", g.z_unit_vector, (0, 0, 1)), ("origin()", g.origin, (0, 0, 0))):
         out = vc.call(mk)
         vc.ensure(label + " is what its name says", And(out.returned, SP.veq(SP.vec(out.value), exp)) if out.returned else False)
+    # the factory functions hand out fresh objects: mutating a result (or moving an object built from it) does not change what they return later
+    for label, mk, exp in (("zero()", g.Vector.zero, (0, 0, 0)), ("x_unit_vector()", g.x_unit_vector, (1, 0, 0)), ("origin()", g.origin, (0, 0, 0))):
+        first = mk()
+        first[0] = x
+        first[2] = y
+        if label != "origin()":
+            ln = g.Line(mk(), g.Vector(1, 2, 2))  # Line(Vector, Vector) keeps the support vector it is given
+            ln.move(g.Vector(2, -1, 2))
+        else:
+            mk().move(g.Vector(2, -1, 2))
+        out = vc.call(mk)
+        vc.ensure(label + " is still what its name says after earlier results were mutated / moved", And(out.returned, SP.veq(SP.vec(out.value), exp)) if out.returned else False)
+    for label, mk in (("x_axis()", g.x_axis), ("xy_plane()", g.xy_plane)):
+        o1 = mk()
+        o1.move(g.Vector(1, 2, 3))
+        o2 = vc.call(mk)
+        vc.ensure(label + " is unaffected by moving an earlier result", o2.returned and vc.snapshot(o2.value) == vc.snapshot(mk()) and SP.veq(SP.vec(o2.value.sv if hasattr(o2.value, "sv") else o2.value.p), (0, 0, 0)) is not False)
     for n_args in (0, 4):
         out = vc.call(g.Vector, *([x] * n_args))
         vc.ensure("Vector() with %d arguments raises TypeError" % n_args, out.raised(TypeError))
